@@ -15,6 +15,12 @@ CHECKS = {
         "Trusts the definitional structure of each named unit as read once at start-up; identity only required within one prefix base (the property's own qualification).",
         "§4 C02, §2.6",
     ),
+    "C09": (
+        "exhaustive enumeration of all intercepted declarations and named units; exact rational spanning-forest size oracle (cycle residuals); library conversion vs oracle",
+        "Exploration with an exhaustively enumerated finite space: every shipped equals() declaration is either a tree edge or closes a fundamental cycle whose exact residual is checked (all cycles are sums of these), every named unit is converted to and from its coherent SI unit and compared with the exact size ratio, and the declared set is re-derived under different first-imported modules.",
+        "A unit with a single declaration and a wrong constant is undetectable by mutual consistency. Exact arithmetic: float literals are taken as the exact binary values written.",
+        "§4 C09, §2.5",
+    ),
 }
 
 NOT_YET = {}
